@@ -11,6 +11,7 @@ import Gts.Lemmas.GbCompose
 import Gts.Lemmas.Table
 import Gts.Lemmas.Nuc
 import Gts.Model.SeqNuc
+import Gts.Spec.LocCanon
 namespace Gts.GenBank
 open Gts.Pars
 
@@ -333,5 +334,19 @@ theorem writable_concat2 (reg : Registry) (F G : Fields) (a b : Seq)
     exact List.mem_append.mp hc
   · simp [Seq.concat2]
   · simpa [Seq.concat2] using hsum
+
+/-- `Location.Complement()` of a canonical location is canonical: it wraps, or unwraps a wrapped
+one -/
+theorem canonP_complement (l : Loc) (h : Loc.canonP l = true) : Loc.canonP l.complement = true := by
+  cases l with
+  | compl x =>
+    simp only [Loc.canonP, Bool.and_eq_true] at h
+    simpa [Loc.complement] using h.1
+  | between p => simpa [Loc.complement, Loc.canonP, Loc.isComplC] using h
+  | point p => simpa [Loc.complement, Loc.canonP, Loc.isComplC] using h
+  | ranged a b c d => simpa [Loc.complement, Loc.canonP, Loc.isComplC] using h
+  | ambiguous a b => simpa [Loc.complement, Loc.canonP, Loc.isComplC] using h
+  | joined ls => simpa [Loc.complement, Loc.canonP, Loc.isComplC] using h
+  | ordered ls => simpa [Loc.complement, Loc.canonP, Loc.isComplC] using h
 
 end Gts.GenBank
